@@ -33,6 +33,9 @@ type G struct {
 	pri     float64
 	hasPri  bool
 	idHash  uint32
+	lockID  uintptr
+	waitAt  time.Time
+	waiting bool
 }
 
 const (
@@ -90,7 +93,8 @@ var (
 	mu       sync.Mutex
 	gs       = map[int64]*G{}
 	parked   []*G
-	lockW    []*G
+	lockW    = map[uintptr][]*G{}
+	lockRes  = map[uintptr]*G{} // lock handed to a starving waiter (sync.Mutex starvation mode)
 	wake     chan struct{}
 	cur      *G
 	cfg      Config
@@ -210,7 +214,7 @@ func park(g *G, site int32, st uint8) {
 	g.site = site
 	g.state = st
 	if st == stLockWait {
-		lockW = append(lockW, g)
+		lockW[g.lockID] = append(lockW[g.lockID], g)
 		res.LockWaits++
 	} else {
 		parked = append(parked, g)
@@ -320,8 +324,20 @@ func Sleep(d time.Duration) {
 	Yield(siteSleep)
 }
 
-// Lock is what x.Lock()/x.RLock() is rewritten to.
-func Lock(try func() bool, lock func(), site int32) {
+func ptrOf(p interface{}) uintptr {
+	v := reflect.ValueOf(p)
+	if v.Kind() == reflect.Ptr || v.Kind() == reflect.UnsafePointer {
+		return v.Pointer()
+	}
+	return 0
+}
+
+// Lock is what x.Lock()/x.RLock() is rewritten to. Waiters are woken by the
+// matching Unlock; a waiter that has waited for at least 1ms of simulated time
+// gets the lock handed to it (what sync.Mutex's starvation mode and
+// sync.RWMutex's writer preference guarantee), so the scheduler cannot starve
+// a waiter in a way the real primitives exclude.
+func Lock(idp interface{}, try func() bool, lock func(), site int32) {
 	if !active.Load() || stopped.Load() {
 		lock()
 		return
@@ -331,28 +347,58 @@ func Lock(try func() bool, lock func(), site int32) {
 		lock()
 		return
 	}
-	for !try() {
+	id := ptrOf(idp)
+	for {
 		if stopped.Load() {
 			lock()
 			return
 		}
+		mu.Lock()
+		r := lockRes[id]
+		mu.Unlock()
+		if r == nil || r == g {
+			if try() {
+				mu.Lock()
+				if lockRes[id] == g {
+					delete(lockRes, id)
+				}
+				g.waiting = false
+				mu.Unlock()
+				return
+			}
+		}
+		mu.Lock()
+		g.lockID = id
+		if !g.waiting {
+			g.waiting = true
+			g.waitAt = time.Now()
+		}
+		mu.Unlock()
 		park(g, site, stLockWait)
 	}
 }
 
 // Unlock is what x.Unlock()/x.RUnlock() is rewritten to.
-func Unlock(unlock func()) {
+func Unlock(idp interface{}, unlock func()) {
 	unlock()
 	if !active.Load() || stopped.Load() {
 		return
 	}
+	id := ptrOf(idp)
 	mu.Lock()
-	if len(lockW) > 0 {
-		for _, g := range lockW {
+	if ws := lockW[id]; len(ws) > 0 {
+		var oldest *G
+		for _, g := range ws {
 			g.state = stParked
+			if oldest == nil || g.waitAt.Before(oldest.waitAt) || (g.waitAt.Equal(oldest.waitAt) && g.id < oldest.id) {
+				oldest = g
+			}
 		}
-		parked = append(parked, lockW...)
-		lockW = lockW[:0]
+		parked = append(parked, ws...)
+		delete(lockW, id)
+		if lockRes[id] == nil && time.Since(oldest.waitAt) >= time.Millisecond {
+			lockRes[id] = oldest
+		}
 	}
 	mu.Unlock()
 }
